@@ -216,13 +216,13 @@ pub fn run(env: &Env) -> Report {
 // C14: typewriter order (option on) vs Unicode order (option off)
 
 #[derive(Clone, Debug)]
-enum Syl { Cons { c0: char, joins: Vec<u8>, kar: Option<char>, chandra: bool }, Indep(char), Punct(char) }
+enum Syl { Cons { c0: char, joins: Vec<u8>, kar: Option<char>, chandra: bool, tail: Option<char> }, Indep(char), Punct(char) }
 
 /// key characters (S2 layout) of a syllable in the two orders; `au_mark`: spell ৌ with the length mark
 fn syl_keys(s: &Syl, typewriter: bool, au_mark: bool) -> Vec<char> {
     match s {
         Syl::Indep(k) | Syl::Punct(k) => vec![*k],
-        Syl::Cons { c0, joins, kar, chandra } => {
+        Syl::Cons { c0, joins, kar, chandra, tail } => {
             let mut v = vec![];
             // S2 keys: i=ি E=ে O=ৈ w=ো W=ৌ a=া l=ৗ
             let left = matches!(kar, Some('i') | Some('E') | Some('O'));
@@ -238,6 +238,8 @@ fn syl_keys(s: &Syl, typewriter: bool, au_mark: bool) -> Vec<char> {
                 } else { v.push(*k); }
             }
             if *chandra { v.push('c'); }
+            // an independent vowel typed as hasanta + sign after the syllable (the C12 rule), e.g. কে + ্ + ু = কেউ
+            if let Some(t) = tail { v.push('h'); v.push(*t); }
             v
         }
     }
@@ -250,7 +252,9 @@ pub fn run_c14(env: &Env) -> Report {
     let mut syls: Vec<Syl> = vec![];
     let kars = [None, Some('a'), Some('i'), Some('I'), Some('u'), Some('U'), Some('R'), Some('E'), Some('O'), Some('w'), Some('W')];
     let joinsets: Vec<Vec<u8>> = { let mut v = vec![vec![]]; for a in 0..5u8 { v.push(vec![a]); for b in 0..5u8 { v.push(vec![a, b]); } } v };
-    for c0 in ['k', 'r', 't'] { for j in &joinsets { for k in kars { for ch in [false, true] { syls.push(Syl::Cons { c0, joins: j.clone(), kar: k, chandra: ch }); } } } }
+    for c0 in ['k', 'r', 't'] { for j in &joinsets { for k in kars { for ch in [false, true] { syls.push(Syl::Cons { c0, joins: j.clone(), kar: k, chandra: ch, tail: None }); } } } }
+    // vowel via hasanta + sign after a syllable carrying a sign (no chandrabindu in between)
+    for c0 in ['k', 't'] { for k in [Some('i'), Some('E'), Some('O'), Some('a'), Some('w')] { for tl in ['u', 'a', 'i', 'E'] { syls.push(Syl::Cons { c0, joins: vec![], kar: k, chandra: false, tail: Some(tl) }); syls.push(Syl::Cons { c0, joins: vec![0], kar: k, chandra: false, tail: Some(tl) }); } } }
     for v in ['o', 'e'] { syls.push(Syl::Indep(v)); }
     for m in ['m', '.'] { syls.push(Syl::Punct(m)); }
     let n1 = syls.len();
@@ -300,6 +304,17 @@ pub fn run_c14(env: &Env) -> Report {
         for i in 0..(n2 / 6) {
             let w = [&syls[rng.below(n1)], &syls[rng.below(n1)], &syls[rng.below(n1)]];
             check_word(&mut rep, &mut a, &mut b, &mut t, &w, i % 10 == 0);
+        }
+        // random key histories with the option on (no oracle: these feed the correspondence with the model, which
+        // carries the whole pending-sign state machine)
+        {
+            let pool: Vec<char> = "krtoeaiIuUREOwWhcnjJ1m.lxyzK".chars().collect();
+            for _ in 0..(if env.quick() { 250 } else { 5000 }) {
+                let len = 2 + rng.below(10);
+                for _ in 0..len { if rng.chance(12) { a.backspace(&mut t, false); } else { let k = *rng.pick(&pool); a.key(&mut t, code_for_char(k).unwrap(), 0, 0); } }
+                a.finish(&mut t); a.events.clear();
+                rep.count("random-history-option-on");
+            }
         }
         // pending-sign clauses: a left sign alone is not shown, is a session, and one backspace discards it
         for k in ['i', 'E', 'O'] {
